@@ -34,3 +34,12 @@ def validate_flat(run, module, recs, describe, per_log=1500, classes_of=None):
             cl, sym = classes_of(r) if classes_of else ((), None)
             run.violation({'record': r, 'input': describe(r)}, f'{describe(r)}: the specification ({module}) disagrees',
                           classes=cl, symptom=sym)
+
+
+def fresh_record(recs, stored, keys):
+    """--replay of a finite-table case: the stored record names the INPUT; the call is made again on the current code (the whole
+    table is re-recorded, which takes seconds) and the fresh record with the same input is validated."""
+    for r in recs:
+        if all(r.get(k) == stored.get(k) for k in keys):
+            return [r]
+    raise MachineryError('replay: the stored input is not part of the recorded table any more')
